@@ -7,7 +7,11 @@ oracle:         (a) documented counter semantics simulated in Python on the impl
                     DLProblem plug-ins generated + compiled at check time, wrapper around the plug-in == native reference problem;
                 (c) counters == call log of the wrapped problem per call; (d) provides_*/supports_* == the subset the problem
                     defines, provided => no not_implemented_error, absent (throwing default) => exactly that error;
-                (e) load failures map to the documented exception classes."""
+                (e) load failures map to the documented exception classes;
+                (f) vf.cascheck / drv_casadi: the real alpaqa::CasADiProblem (library's own CasADi runtime replacement) on generated
+                    CasADi-ABI shared objects == native reference with the same members; flags == exported functions; sparsity patterns;
+                    counters of a counting wrapper == generated functions entered; wrong arity / dimensions / missing symbols rejected;
+                    ALM∘PANOC on the loaded problem == on the native reference."""
 import importlib.util, itertools, os, subprocess
 from vf.core import *
 
@@ -809,7 +813,10 @@ def run(ctx):
                         "timers (std::chrono) are not modelled; only counters are compared",
                         "the wrapper model covers the shared_ptr graph (null / shared / decoupled); memory reclamation of blocks is not modelled",
                         "translator grammar: one forwarding member per line in problem-with-counters.hpp / ocproblem.hpp / dl-problem.cpp (lines that do not parse are listed as out_of_grammar)",
-                        "test functions of the native and plug-in problems are shared C code (harness/c20_plugin_common.h); only the forwarding layers differ"]
+                        "test functions of the native and plug-in problems are shared C code (harness/c20_plugin_common.h); only the forwarding layers differ",
+                        "CasADi loader: run with the library's own replacement of the CasADi runtime on shared objects generated by lib/vf/casgen.py "
+                        "(CasADi generated-code ABI as in test/outer/rosenbrock_functions_test.c; closed forms harness/cas_closed_forms.h shared with the native "
+                        "reference of drv_casadi); libcasadi itself (ALPAQA_WITH_EXTERNAL_CASADI) and the optimal-control loader CasADiControlProblem are not run"]
     spec = importlib.util.spec_from_file_location("gen_C20_wrappers", os.path.join(VERIF, "translate", "gen_C20_wrappers.py"))
     tr = importlib.util.module_from_spec(spec); spec.loader.exec_module(tr)
     try:
@@ -832,3 +839,6 @@ def run(ctx):
     check_nlp(ctx)
     check_ocp(ctx)
     check_loads(ctx)
+    # CasADi loader at run time: real CasADiProblem on generated CasADi-ABI plug-ins (transparency, flags, sparsity, counters, load failures, one solve)
+    from vf import cascheck
+    cascheck.attach_C20(ctx)
